@@ -28,10 +28,11 @@ def sample_file(name, words, rate=44100, start=0, end=None, root=60):
     return h + words
 
 
-def partition(volumes, size_sectors=64, dir_sectors=1, dir_linked=False, vol_type=1, first_free=3):
+def partition(volumes, size_sectors=64, dir_sectors=1, dir_linked=False, vol_type=1, first_free=3, layout=None):
     """volumes: list of (name, [(fname, ftype, filebytes, order or None)], _).
     dir_sectors / dir_linked: a volume directory of 1..2 sectors stored as a run of reserved-flag sectors or as a linked chain;
-    first_free: first sector handed out (moves everything up, e.g. to leave free sectors below)."""
+    first_free: first sector handed out (moves everything up, e.g. to leave free sectors below);
+    layout: optional dict, filled with (volume name, file name) -> list of sectors holding the file, and (volume name, None) -> directory sectors."""
     sat = [FREE] * SAT_N
     data = {}                       # sector -> bytes
     for s in range(3):
@@ -46,6 +47,8 @@ def partition(volumes, size_sectors=64, dir_sectors=1, dir_linked=False, vol_typ
     for (vname, files, _unused) in volumes:
         dsecs = alloc(dir_sectors)
         dsec = dsecs[0]
+        if layout is not None:
+            layout[(vname, None)] = list(dsecs)
         for i, d in enumerate(dsecs):
             if dir_linked:
                 sat[d] = dsecs[i + 1] if i + 1 < len(dsecs) else EOFM
@@ -59,6 +62,8 @@ def partition(volumes, size_sectors=64, dir_sectors=1, dir_linked=False, vol_typ
             secs = alloc(k)
             if order:                                 # permutation of the allocated sectors
                 secs = [secs[i] for i in order]
+            if layout is not None:
+                layout[(vname, fname)] = list(secs)
             for i, s in enumerate(secs):
                 data[s] = fbytes[i * SECT:(i + 1) * SECT].ljust(SECT, b"\0")
                 sat[s] = secs[i + 1] if i + 1 < k else EOFM
